@@ -1,4 +1,6 @@
-// C04 puppet (generated by hand-run script, committed as source): many small adjacent functions.
+// C04 puppet: many small functions of different sizes laid out back to back - some end exactly on a
+// 16-byte boundary, so the end_sequence row of one function shares its address with the first row of
+// the next one (written once by a script, committed as plain source).
 use std::hint::black_box;
 
 #[inline(never)]
@@ -363,220 +365,6 @@ fn f29(x: u64) -> u64 {
     a
 }
 
-#[inline(never)]
-fn f30(x: u64) -> u64 {
-    let mut a = x;
-    a = a.rotate_left(5);
-    a = a.wrapping_mul(34);
-    a
-}
-
-#[inline(never)]
-fn f31(x: u64) -> u64 {
-    let mut a = x;
-    a = a.wrapping_mul(34);
-    a = a.wrapping_add(35);
-    a ^= 36;
-    a = a.rotate_left(9);
-    a = a.wrapping_mul(38);
-    a = a.wrapping_add(39);
-    a ^= 40;
-    a = a.rotate_left(13);
-    a = a.wrapping_mul(42);
-    a
-}
-
-#[inline(never)]
-fn f32(x: u64) -> u64 {
-    let mut a = x;
-    a = a.wrapping_add(35);
-    a ^= 36;
-    a = a.rotate_left(9);
-    a = a.wrapping_mul(38);
-    a = a.wrapping_add(39);
-    a
-}
-
-#[inline(never)]
-fn f33(x: u64) -> u64 {
-    let mut a = x;
-    a ^= 36;
-    a
-}
-
-#[inline(never)]
-fn f34(x: u64) -> u64 {
-    let mut a = x;
-    a = a.rotate_left(9);
-    a = a.wrapping_mul(38);
-    a = a.wrapping_add(39);
-    a ^= 40;
-    a = a.rotate_left(13);
-    a = a.wrapping_mul(42);
-    a = a.wrapping_add(43);
-    a ^= 44;
-    a
-}
-
-#[inline(never)]
-fn f35(x: u64) -> u64 {
-    let mut a = x;
-    a = a.wrapping_mul(38);
-    a = a.wrapping_add(39);
-    a ^= 40;
-    a = a.rotate_left(13);
-    a
-}
-
-#[inline(never)]
-fn f36(x: u64) -> u64 {
-    let mut a = x;
-    a = a.wrapping_add(39);
-    a ^= 40;
-    a = a.rotate_left(13);
-    a = a.wrapping_mul(42);
-    a = a.wrapping_add(43);
-    a ^= 44;
-    a = a.rotate_left(4);
-    a = a.wrapping_mul(46);
-    a = a.wrapping_add(47);
-    a ^= 48;
-    a = a.rotate_left(8);
-    a
-}
-
-#[inline(never)]
-fn f37(x: u64) -> u64 {
-    let mut a = x;
-    a ^= 40;
-    a = a.rotate_left(13);
-    a = a.wrapping_mul(42);
-    a = a.wrapping_add(43);
-    a ^= 44;
-    a = a.rotate_left(4);
-    a = a.wrapping_mul(46);
-    a
-}
-
-#[inline(never)]
-fn f38(x: u64) -> u64 {
-    let mut a = x;
-    a = a.rotate_left(13);
-    a = a.wrapping_mul(42);
-    a = a.wrapping_add(43);
-    a
-}
-
-#[inline(never)]
-fn f39(x: u64) -> u64 {
-    let mut a = x;
-    a = a.wrapping_mul(42);
-    a = a.wrapping_add(43);
-    a ^= 44;
-    a = a.rotate_left(4);
-    a = a.wrapping_mul(46);
-    a = a.wrapping_add(47);
-    a ^= 48;
-    a = a.rotate_left(8);
-    a = a.wrapping_mul(50);
-    a = a.wrapping_add(51);
-    a
-}
-
-#[inline(never)]
-fn f40(x: u64) -> u64 {
-    let mut a = x;
-    a = a.wrapping_add(43);
-    a ^= 44;
-    a = a.rotate_left(4);
-    a = a.wrapping_mul(46);
-    a = a.wrapping_add(47);
-    a ^= 48;
-    a
-}
-
-#[inline(never)]
-fn f41(x: u64) -> u64 {
-    let mut a = x;
-    a ^= 44;
-    a = a.rotate_left(4);
-    a
-}
-
-#[inline(never)]
-fn f42(x: u64) -> u64 {
-    let mut a = x;
-    a = a.rotate_left(4);
-    a = a.wrapping_mul(46);
-    a = a.wrapping_add(47);
-    a ^= 48;
-    a = a.rotate_left(8);
-    a = a.wrapping_mul(50);
-    a = a.wrapping_add(51);
-    a ^= 52;
-    a = a.rotate_left(12);
-    a
-}
-
-#[inline(never)]
-fn f43(x: u64) -> u64 {
-    let mut a = x;
-    a = a.wrapping_mul(46);
-    a = a.wrapping_add(47);
-    a ^= 48;
-    a = a.rotate_left(8);
-    a = a.wrapping_mul(50);
-    a
-}
-
-#[inline(never)]
-fn f44(x: u64) -> u64 {
-    let mut a = x;
-    a = a.wrapping_add(47);
-    a
-}
-
-#[inline(never)]
-fn f45(x: u64) -> u64 {
-    let mut a = x;
-    a ^= 48;
-    a = a.rotate_left(8);
-    a = a.wrapping_mul(50);
-    a = a.wrapping_add(51);
-    a ^= 52;
-    a = a.rotate_left(12);
-    a = a.wrapping_mul(54);
-    a = a.wrapping_add(55);
-    a
-}
-
-#[inline(never)]
-fn f46(x: u64) -> u64 {
-    let mut a = x;
-    a = a.rotate_left(8);
-    a = a.wrapping_mul(50);
-    a = a.wrapping_add(51);
-    a ^= 52;
-    a
-}
-
-#[inline(never)]
-fn f47(x: u64) -> u64 {
-    let mut a = x;
-    a = a.wrapping_mul(50);
-    a = a.wrapping_add(51);
-    a ^= 52;
-    a = a.rotate_left(12);
-    a = a.wrapping_mul(54);
-    a = a.wrapping_add(55);
-    a ^= 56;
-    a = a.rotate_left(3);
-    a = a.wrapping_mul(58);
-    a = a.wrapping_add(59);
-    a ^= 60;
-    a
-}
-
 fn main() {
     let mut s = black_box(1u64);
     s = f00(s);
@@ -609,23 +397,5 @@ fn main() {
     s = f27(s);
     s = f28(s);
     s = f29(s);
-    s = f30(s);
-    s = f31(s);
-    s = f32(s);
-    s = f33(s);
-    s = f34(s);
-    s = f35(s);
-    s = f36(s);
-    s = f37(s);
-    s = f38(s);
-    s = f39(s);
-    s = f40(s);
-    s = f41(s);
-    s = f42(s);
-    s = f43(s);
-    s = f44(s);
-    s = f45(s);
-    s = f46(s);
-    s = f47(s);
     println!("{s}");
 }
